@@ -141,7 +141,9 @@ def main():
                     break
                 try:
                     ev = json.load(open(os.path.join("/var/tmp/tbfsim_mutcamp_ev", c + ".json")))
-                    if ev["coverage"].get("crashes", 0) > 0:
+                    # (not for C15: there a crash is a violation of the property itself and already decides the exit code, and the
+                    # unchanged tree has a known crashing finding, K2)
+                    if c != "C15" and ev["coverage"].get("crashes", 0) > 0:
                         verdict, by = "killed(crash/hang)", c + ": %d worker deaths" % ev["coverage"]["crashes"]
                         break
                 except Exception:
